@@ -5,7 +5,8 @@ What is PROVED (Props/C19.lean, about the model of the CLI's DECISION LOGIC, for
   * splitSpec_spec / splitSpec_bare / splitSpec_sound / splitSpec_none_iff : the scanner that mirrors the regex of
     `_ConstructorParamType.convert` returns exactly (name, args) for `name(<ws>args[,]<ws>)`, and rejects exactly the
     strings that have no such decomposition;
-  * nonliteral_rejected : argument text that `ast.literal_eval` refuses (not a literal / syntax error) is a usage
+  * convert_nonliteral / convert_evalCalled / convert_ctorCalled / nonliteral_rejected : argument text that
+    `ast.literal_eval` refuses (not a literal / syntax error) is a usage
     error and the registered constructor is never invoked, nothing is simulated;
   * validators_spec : a command is accepted iff every parameter is in its documented range (probabilities in [0,1],
     TIME_STEPS/-r/-f >= 1, -s >= 0, >= 1 probability, three well-formed specs); a rejection precedes every simulation
@@ -13,7 +14,8 @@ What is PROVED (Props/C19.lean, about the model of the CLI's DECISION LOGIC, for
   * delegation_spec : when accepted, exactly one app.run / app.run_ftp call per probability, in order, with exactly
     the options given (seed, max-runs, max-failures, time steps, measurement probability), and the payload handed to
     the output protocol is the list of their results;
-  * write_protocol / write_existing_untouched / merge_protocol : a serialisable payload is never lost - it is in
+  * write_protocol / write_existing_untouched / results_never_dropped / merge_protocol (and the honest negative
+    write_unserialisable_loses: an aggregate json refuses IS lost - hence the serialisability check below) : a serialisable payload is never lost - it is in
     exactly one of stdout / the new file / the error log; existing or uncreatable target => no file effect, payload on
     the log, exit status != 0; creatable => file = payload, exit 0.
 What is EXPLORED, not proved (ctx.explored)
@@ -730,7 +732,10 @@ def run_cmd_case(rc, tmp, split_of=None, driver=None):
                  'f': int(ov['f']) if 'f' in ov else None, 's': int(ov['s']) if 's' in ov else None}
                 for p in rc['probs']]
         got = [{k: s[k] for k in ('p', 'ts', 'm', 'r', 'f', 's')} for s in rec.sims]
-        if got != want:
+        if usage and not rec.sims:
+            fails.append(('a command line whose parameters are all in their documented ranges is refused with a '
+                          'usage error: ' + err.strip().splitlines()[-1][:200], 'valid-rejected'))
+        elif got != want:
             fails.append(('CLI does not delegate to the API with the given arguments: calls {} expected {}'.format(
                 got, want), 'delegation-differs'))
         if not rc['unser']:
@@ -1430,6 +1435,4 @@ def replay(ctx, path):
             what = r and r['what']
         print('replay', (inp or {}).get('kind'), '->', what)
         bad += bool(what)
-    if bad:
-        print('VIOLATION property=C19 replay={}'.format(path))
-    return 1 if bad else 0
+    return 1 if bad else 0      # core.do_replay prints the VIOLATION line
